@@ -622,7 +622,7 @@ impl Prop for C07 {
         "pp: structure tree (loops, do-while, cond chains, breaks, surviving labels; bookends dropped) of passes::postprocess_decompiled on a flat block == Lean `Decomp.postprocess`; sem: AstVm trace (instr_log, time, real_time, registers) of the flat block and verdict `same` for desugar_blocks(reconstructed) == Lean machine `Decomp.run` on the flat block and on `Decomp.lower (postprocess ..)` (the definitions the theorem `C07_sound_partial` is stated with)"
     }
     fn rule(&self) -> &'static str {
-        "flat blocks from (a) generated structured programs (cond chains with 1-3 arms +- else, loop with break, do-while incl. count jumps, while, times with clobber; depth <= 3) through the REAL desugar_blocks::run, `unless (c)` rewritten to `if (!c)` like the compiler+raiser do, then 0-3 mutations (retarget a jump, explicit time, difficulty tag, interrupt label, extra referrer, delete, swap, time label, new label; rarely `unless`, undefined label, offsetof/timeof); (b) random jump graphs of 3-28 statements over 1-5 labels; every flat block gives a `pp` case (model vs implementation) and, when it is something the raiser can produce, a `vm` case: AstVm on the --no-blocks form vs the reconstructed form (only when time labels are monotone and no jump has an explicit time, because AstVm's block-end time rule is exact only then) and vs desugar_blocks(reconstructed) (always), 4 (quick) / 8 (thorough) valuations of difficulty + 4 int registers, iteration limit => skipped; (c) end to end: structured sources with explicit labels/gotos compiled as TH12 ANM and TH07 ECL, decompiled with blocks off/on, both texts recompiled (must reproduce the bytes) and run in AstVm. non-trivial = contains at least one jump"
+        "flat blocks from (a) generated structured programs (cond chains with 1-3 arms +- else, loop with break, do-while incl. count jumps, while, times with clobber; depth <= 3) through the REAL desugar_blocks::run, `unless (c)` rewritten to `if (!c)` like the compiler+raiser do, then 0-3 mutations (retarget a jump, explicit time, difficulty tag, interrupt label, extra referrer, delete, swap, time label, new label; rarely `unless`, undefined label, offsetof/timeof); (b) random jump graphs of 3-28 statements over 1-5 labels; (b2) near-chains: jump patterns laid out like an if / else-if (/ else) chain of 2-4 arms followed by three labelled tails, where the last conditional jump and some of the `goto end`s go to the end label, beyond it, or back to an earlier arm; every flat block gives a `pp` case (model vs implementation) and, when it is something the raiser can produce, a `vm` case: AstVm on the --no-blocks form vs the reconstructed form (only when time labels are monotone and no jump has an explicit time, because AstVm's block-end time rule is exact only then) and vs desugar_blocks(reconstructed) (always), 4 (quick) / 8 (thorough) valuations of difficulty + 4 int registers, iteration limit => skipped; (c) end to end: structured sources with explicit labels/gotos compiled as TH12 ANM and TH07 ECL, decompiled with blocks off/on, both texts recompiled (must reproduce the bytes) and run in AstVm. non-trivial = contains at least one jump"
     }
     fn theorems(&self) -> &'static [&'static str] {
         &["TruthModel.C07.postprocess_observation", "TruthModel.C07.time_labels_preserved", "TruthModel.C07.timed_jumps_untouched",
@@ -658,6 +658,12 @@ impl Prop for C07 {
             let mut muts = vec![];
             if wild { for _ in 0..g.rng.below(3) { muts.push(mutate(&mut g, &mut flat, k % 9 == 0)); } }
             self.push_flat(&mut out, rng, flat, "graph", &muts, nvals);
+        }
+        // (b2) near-chains
+        for _ in 0..400 * scale {
+            let mut g = G { rng, next_label: 0, next_op: 0, ins_table: &[], allow_diff: true, allow_int: true, gt_count: false, src_labels: false };
+            let flat = g.near_chain();
+            self.push_flat(&mut out, rng, flat, "near-chain", &[], nvals);
         }
         // (c) end to end through real formats
         for k in 0..160 * scale {
@@ -792,6 +798,42 @@ impl G<'_> {
             out.push(s);
         }
         out
+    }
+
+    // ---- jump patterns shaped like an if / else-if chain, with one or two of its jumps going elsewhere ----
+    /// `if (c1) goto n1; A; goto end; n1: if (c2) goto n2; B; goto end; n2: ... end: C; other: D; other2: E` where the
+    /// last conditional jump and the `goto end`s may go to `end`, beyond it, or back to an earlier arm
+    fn near_chain(&mut self) -> Vec<Sexp> {
+        let arms = 2 + self.rng.below(3);
+        let has_else = self.rng.chance(1, 3);
+        let next: Vec<i64> = (0..arms).map(|_| self.fresh_label()).collect();
+        let (end, other, other2) = (self.fresh_label(), self.fresh_label(), self.fresh_label());
+        let mut out = vec![];
+        for _ in 0..self.rng.below(2) { out.push(self.ins()); }
+        let elsewhere = |g: &mut G, usual: i64| -> i64 {
+            match g.rng.below(8) { 0 => other, 1 => other2, 2 => end, 3 => next[g.rng.below(arms)], _ => usual }
+        };
+        for i in 0..arms {
+            if i > 0 { out.push(lab(next[i - 1])); }
+            let last = i + 1 == arms;
+            let usual = if last && !has_else { end } else { next[i] };
+            let t = if last { elsewhere(self, usual) } else if self.rng.chance(1, 10) { elsewhere(self, usual) } else { usual };
+            let c = self.cond();
+            out.push(app("cj", vec![Sexp::atom("if"), c, goto(t)]));
+            for _ in 0..self.rng.below(3) { let s = if self.rng.chance(1, 4) { self.set() } else { self.ins() }; out.push(s); }
+            if self.rng.chance(1, 8) { let t = self.time_label(); out.push(t); }
+            if !last || has_else { let t = if self.rng.chance(1, 5) { elsewhere(self, end) } else { end }; out.push(goto(t)); }
+        }
+        if has_else { out.push(lab(next[arms - 1])); for _ in 0..1 + self.rng.below(2) { out.push(self.ins()); } }
+        out.push(lab(end));
+        for _ in 0..self.rng.below(3) { out.push(self.ins()); }
+        out.push(lab(other));
+        for _ in 0..self.rng.below(2) { out.push(self.ins()); }
+        out.push(lab(other2));
+        out.push(self.ins());
+        // labels that nothing refers to would be dropped by the raiser anyway; keep the stream as the raiser would give it
+        let used: Vec<i64> = out.iter().filter_map(|s| match s.head() { Some("goto") => Some(s.args()[0].as_i64()), Some("cj") => Some(s.args()[2].args()[0].as_i64()), _ => None }).collect();
+        out.into_iter().filter(|s| s.head() != Some("lab") || used.contains(&s.args()[0].as_i64())).collect()
     }
 
     // ---- structured programs ----
